@@ -265,7 +265,7 @@ def run(cx: Cx):
             continue
         if any(any(t.qualname in steppers for t in c.data.get('targets', [])) for c in calls) and k in cx.prog.functions:
             drivers.append(k)
-    cx.floor('functions that step a model (batch drivers)', len(drivers), 2)
+    cx.floor('functions that step a model (batch drivers)', len(drivers), 1)
     for q in sorted(drivers):
         d = cx.fn(q)
         n = 0
